@@ -518,6 +518,26 @@ func ruleR101closures(c *Ctx) {
 							check(&ast.IndexExpr{X: t.Args[0]}, t.Pos())
 						}
 					}
+					// a mutating method of a synchronisation type on a captured variable is a store as well:
+					// lastMethod.Store(..) on an atomic.Pointer, cache.Store(..) on a sync.Map, pool.Put(..)
+					if sel, ok := ast.Unparen(t.Fun).(*ast.SelectorExpr); ok {
+						if cal := Callee(info, t); cal != nil && cal.Pkg() != nil && (cal.Pkg().Path() == "sync/atomic" || cal.Pkg().Path() == "sync") {
+							switch cal.Name() {
+							case "Store", "Swap", "CompareAndSwap", "Add", "And", "Or", "LoadOrStore", "LoadAndDelete", "Delete", "CompareAndDelete", "Put", "Clear", "Range":
+								if cal.Name() != "Range" {
+									check(&ast.SelectorExpr{X: sel.X, Sel: sel.Sel}, t.Pos())
+								}
+							}
+						}
+						// package level functions of sync/atomic: atomic.StoreInt64(&x, ..)
+					}
+					if cal := Callee(info, t); cal != nil && cal.Pkg() != nil && cal.Pkg().Path() == "sync/atomic" && cal.Type().(*types.Signature).Recv() == nil && len(t.Args) >= 1 {
+						if strings.HasPrefix(cal.Name(), "Store") || strings.HasPrefix(cal.Name(), "Add") || strings.HasPrefix(cal.Name(), "Swap") || strings.HasPrefix(cal.Name(), "CompareAndSwap") {
+							if u, ok := ast.Unparen(t.Args[0]).(*ast.UnaryExpr); ok && u.Op == token.AND {
+								check(u.X, t.Pos())
+							}
+						}
+					}
 				}
 				return true
 			})
